@@ -1889,8 +1889,52 @@ static const char *props(const std::string &cls) {
     return "C14";
 }
 
-static const qsim::World world = {"seq", generate, execute, props};
+// ------------------------------------------------------------------------------------------------
+// memsweep: complete enumeration of Memory::Copy / Memory::SetToZero over every length 0..4096 for one
+// (destination misalignment, source misalignment) pair per run; run index i covers pair (i % 32, (i / 32) % 32),
+// so 1024 consecutive indices cover all pairs in the build under test.
+// ------------------------------------------------------------------------------------------------
+static void generate_sweep(Plan &plan, uint64_t seed, int) {
+    Rng cfg(qsim::derive(seed, "cfg"));
+    gen_heap_cfg(plan, cfg, true);
+    uint64_t idx      = (uint64_t)plan.get("run_index", 0);
+    plan.cfg["mode"]  = SW_MEM;
+    plan.cfg["width"] = 1;
+    Op op;
+    op.kind = 2; // sweep
+    op.a[0] = (int64_t)(idx % 32);
+    op.a[1] = (int64_t)((idx / 32) % 32);
+    op.a[3] = (int64_t)cfg.below(256);
+    plan.ops.push_back(op);
+}
+static bool execute_sweep(Plan &plan) {
+    Ctx cx;
+    cx.sub = "memsweep";
+    size_t cases = 0;
+    qsim::run_single([&]() {
+        MemW w(cx);
+        for (auto &op : plan.ops) {
+            for (int64_t len = 0; len <= 4096 && !cx.failed && !qsim::run_aborted(); len++) {
+                for (int zero = 0; zero < 2 && !cx.failed; zero++) {
+                    Op one   = op;
+                    one.kind = zero;
+                    one.a[2] = len;
+                    w.exec(one);
+                    cases++;
+                }
+            }
+        }
+        if (!qsim::run_aborted()) qsim::check_leaks("memsweep");
+    });
+    qsim::probe("memsweep.pair-runs");
+    qsim::probe("memsweep.cases", cases);
+    return cases > 0;
+}
+
+static const qsim::World world       = {"seq", generate, execute, props};
+static const qsim::World world_sweep = {"memsweep", generate_sweep, execute_sweep, props};
 QSIM_REGISTER_WORLD(world)
+QSIM_REGISTER_WORLD(world_sweep)
 
 } // namespace seq
 } // namespace qw
